@@ -57,9 +57,8 @@ def doubleDetourMatters (c2 : Cfg) (x : Rat) : Bool :=
 /-- class of a failing c2c line (inputs only: the exact source value and the two configurations) -/
 def c2cClass (c1 c2 : Cfg) (x : Rat) : String :=
   let X := absR x
-  -- to_native: ipow(e) = 1.0 / (2^|e| = inf) = 0 for e ≤ -1024 although the value may be a subnormal double
-  if c1.es ≥ 12 && X < pow2 (-1023) then "cfloat.c2c.ipow_underflow"
-  else if !isDouble x && doubleDetourMatters c2 x then "cfloat.c2c.source_exceeds_double"
+  -- (cfloat.c2c.ipow_underflow was repaired in /repo: ipow reaches the subnormal doubles; no class any more)
+  if !isDouble x && doubleDetourMatters c2 x then "cfloat.c2c.source_exceeds_double"
   else if c2.sat && c2.sup && overflows c2 X then "cfloat.sat_sup.maxpos_is_inf"
   else if X < pow2 (-1022) && !(c2.nbits == 64 && c2.es == 11) &&
           (-1023 : Int) ≥ (if c2.sub then c2.minExpSubnormal - 1 else c2.minExpNormal) then "cfloat.from_ieee.subnormal_source"
